@@ -79,14 +79,28 @@ def judge_minute(candle, events, orders_before, sim='step'):
     now = 0.0
     vios, fills, flags = [], 0, set()
     pending_market = {}
+    point = None  # price of the last fill of this minute = where the path stands
+    at_open = False  # the last fill was at the very point where the path stood (the open of the remaining piece)
+    here = candle[1]
     for e in events:
         if e['ev'] == 'submit':
             if e['price'] is None:
                 continue
+            if e['type'] == 'MARKET' and e.get('phase') == 'liquidation':
+                continue  # the liquidation order carries the bankruptcy price by definition (C09)
+            if e['type'] == 'MARKET' and point is not None and abs(1 - e['price'] / point) > 0.00015 * (1 + 1e-9) \
+                    and not (at_open and abs(1 - e['price'] / candle[2]) <= 0.00015 * (1 + 1e-9)):
+                # (a fill exactly at the open of the remaining piece does not split it - the property excepts the open -: the
+                # hook then sees the close of the minute as the price)
+                # a hook runs at the fill that triggered it: what it sees as the price, and therefore the price of a market order
+                # it submits (or of an exit it declares within 0.015 %), is that point of the path
+                vios.append((f'C08:sim={sim}:market-order-priced-off-the-current-path-position',
+                             f"path {path.pts}: MARKET order {e['ord']} submitted inside the hook of a fill at {point} carries the price {e['price']}"))
             if e['type'] == 'MARKET':
                 # an exit declared within 0.015% of the price becomes a MARKET order that keeps the DECLARED price; while it waits in
                 # the to-execute queue the matching loop fills it like a resting order when the path reaches that price
-                # (which moves the position on the path). It is flushed right after the minute otherwise: never 'left unfilled'.
+                # (which moves the position on the path); a market order submitted by a hook at the current price is therefore
+                # filled at once, before the path moves on. Only one whose price is off the remaining path waits for the flush.
                 pending_market[e['ord']] = e['price']
                 continue
             active[e['ord']] = dict(price=e['price'], born=now, reaction=True)
@@ -95,6 +109,7 @@ def judge_minute(candle, events, orders_before, sim='step'):
                 flags.add('reaction-order-on-travelled-part-only')
         elif e['ev'] == 'cancel' and e['before'] == 'ACTIVE':
             active.pop(e['ord'], None)
+            pending_market.pop(e['ord'], None)
         elif e['ev'] == 'fill' and e['before'] == 'ACTIVE':  # the moment execute() is entered: hooks (and their orders) come after it
             me = active.pop(e['ord'], None)
             if me is None:
@@ -103,6 +118,7 @@ def judge_minute(candle, events, orders_before, sim='step'):
                     tm = path.first_touch(mp, now)
                     if tm is not None:
                         now = tm
+                        at_open, point, here = (mp == here), mp, mp
                         flags.add('pending-market-order-filled-on-the-path')
                 continue  # market order
             fills += 1
@@ -111,6 +127,12 @@ def judge_minute(candle, events, orders_before, sim='step'):
                 kind = 'reaction-order-filled-on-travelled-part' if me['reaction'] else 'filled-off-the-remaining-path'
                 vios.append((f'C08:sim={sim}:{kind}', f"order {e['ord']} at {me['price']} filled although the path {path.pts} had already passed time {now} (no touch left)"))
                 continue
+            for k, mp in pending_market.items():
+                tq = path.first_touch(mp, now)
+                if tq is not None and tq < tf:
+                    vios.append((f'C08:sim={sim}:resting-order-filled-before-a-pending-market-order-reached-earlier',
+                                 f"path {path.pts}: order {e['ord']} at {me['price']} (reached at t={tf}) filled while the MARKET order {k} at {mp} (reached at t={tq}) was still waiting; position on the path was t={now}"))
+                    break
             for k, other in active.items():
                 to = path.first_touch(other['price'], now)
                 if to is not None and to < tf:
@@ -120,6 +142,7 @@ def judge_minute(candle, events, orders_before, sim='step'):
                                  f"path {path.pts}: order {e['ord']} at {me['price']} (reached at t={tf}) filled before order {k} at {other['price']} (reached at t={to}); position on the path was t={now}"))
                     break
             now = tf
+            at_open, point, here = (me['price'] == here), me['price'], me['price']
     for k, other in active.items():
         to = path.first_touch(other['price'], now)
         if to is not None:
@@ -127,6 +150,11 @@ def judge_minute(candle, events, orders_before, sim='step'):
                 continue
             vios.append((f"C08:sim={sim}:reachable-order-left-unfilled" + (':reaction-order' if other['reaction'] else ''),
                          f"path {path.pts}: order {k} at {other['price']} is reached at t={to} >= {now} but the minute ended without filling it"))
+    for k, mp in pending_market.items():
+        tq = path.first_touch(mp, now)
+        if tq is not None:
+            vios.append((f'C08:sim={sim}:pending-market-order-on-the-remaining-path-not-filled-in-the-minute',
+                         f"path {path.pts}: MARKET order {k} at {mp} is reached at t={tq} >= {now} but the minute ended without filling it"))
     if fills >= 2:
         flags.add('2+-fills-in-minute')
     return vios, dict(fills=fills, flags=flags)
@@ -243,7 +271,7 @@ def session_minutes(spec):
             candle, evs, before = cur.pop(sym)
             v, st = judge_minute(candle, evs, before)
             if r['error'] is not None and e is last_minute_end:
-                v = [x for x in v if 'left-unfilled' not in x[0]]  # the run aborted inside this minute (order rejection): matching was cut short
+                v = [x for x in v if 'left-unfilled' not in x[0] and 'not-filled-in-the-minute' not in x[0]]  # the run aborted inside this minute (order rejection): matching was cut short
             vios += v
             nfl = max(nfl, st['fills'])
             flags |= st['flags']
